@@ -103,9 +103,9 @@ void emit_plan_dec() {
     oprintf("]");
 }
 void emit_run_fields() {
-    oprintf("\"seed\":%llu,\"fp\":\"%016llx\",\"steps\":%llu,\"switches\":%llu,\"threads\":%d,\"interactions\":%llu,\"vtime_ns\":%ld,\"decisions\":%llu,\"faults_on\":%d,\"strategy\":%d,\"races\":%llu,",
+    oprintf("\"seed\":%llu,\"fp\":\"%016llx\",\"steps\":%llu,\"switches\":%llu,\"threads\":%d,\"interactions\":%llu,\"vtime_ns\":%ld,\"decisions\":%llu,\"faults_on\":%d,\"plain_points\":%d,\"strategy\":%d,\"races\":%llu,",
             (unsigned long long)G.seed, (unsigned long long)G.fp, (unsigned long long)G.steps, (unsigned long long)G.switches, G.nth,
-            (unsigned long long)G.interactions, G.now, (unsigned long long)G.decisions, (int)G.faults_on, G.strategy, (unsigned long long)G.races);
+            (unsigned long long)G.interactions, G.now, (unsigned long long)G.decisions, (int)G.faults_on, (int)G.plain_points, G.strategy, (unsigned long long)G.races);
     oprintf("\"fired\":{");
     for (int i = 0; i < F_NKINDS; i++) oprintf("%s\"%s\":%llu", i ? "," : "", fault_names[i], (unsigned long long)G.fault_fired[i]);
     oprintf("},\"note\":"); ojson_str(G.note); oprintf(",");
@@ -403,6 +403,7 @@ void run_setup(u64 seed) {
         if (s < 4) { G.strategy = S_RANDOM; static const double ps[] = {0.02, 0.1, 0.3, 0.6}; G.p_switch = ps[rnd_below(G.rng_dec, 4)]; }
         else if (s < 8) { G.strategy = S_PCT; G.pct_depth = 1 + rnd_below(G.rng_dec, 3); static const u32 hz[] = {40, 120, 400, 1500}; u32 h = hz[rnd_below(G.rng_dec, 4)]; for (int k = 0; k < 4; k++) G.pct_points[k] = 1 + rnd_below(G.rng_dec, h); G.prio_low = 900; }
         else { G.strategy = S_RR; G.rr_quantum = 1 + rnd_below(G.rng_dec, 12); }
+        G.plain_points = rnd_below(G.rng_dec, 4) == 0;
     }
     hb_reset(); heap_reset(); sync_reset();
 }
